@@ -26,7 +26,10 @@ META = dict(
          "entry/commit points of the request functions, Engine._lock acquire/release) with at most 1 (quick) / 2 (thorough) "
          "preemptions is executed; the final observation (marks, method state, command life cycles, run state, run log, request "
          "result, tick exceptions) must equal that of a serial schedule in which the request is applied entirely before one of "
-         "the window's ticks or after them; deadlocks and exceptions no serial schedule produces are violations.",
+         "the window's ticks or after them; deadlocks and exceptions no serial schedule produces are violations.  The same "
+         "with two request threads next to the ticking thread (eight request pairs, one tick in the window): the outcome must "
+         "equal that of a serial schedule of the two requests and the tick, in which a cancel / force may name the run-log "
+         "item offered at an earlier serial position.",
     note="Interleavings inside one statement or between two statements without a yield point in between are not explored "
          "(hooks: openpectus/engine/verif_hooks.py, guarded by OPEN_PECTUS_VERIF=1); the engine lock is replaced on the "
          "instance by a scheduler-visible lock; 34 settle ticks after the window.",
@@ -56,7 +59,19 @@ def prepare(scn):
     return run
 
 
-def do_request(run: Run, scn, req):
+def pick_target(run: Run, req):
+    """What the user addresses: cancel / force name a run-log item seen at the time the request is issued."""
+    if req not in ("cancel", "force"):
+        return None
+    items = run.runlog_items()
+    if req == "cancel":
+        cand = [i for i in items if i["cancellable"]]
+    else:
+        cand = [i for i in items if i["forcible"] and i["state"] not in ("completed", "failed", "cancelled")]
+    return cand[-1]["id"] if cand else "nothing-offered"
+
+
+def do_request(run: Run, scn, req, target=None):
     if req == "edit":
         return run.set_method(list(run.lines) + [("NA", "Mark: app")])
     if req == "inject":
@@ -65,14 +80,11 @@ def do_request(run: Run, scn, req):
         return run.user("Unpause" if scn == "paused" else "Pause")
     if req == "stop":
         return run.user("Stop")
-    items = run.runlog_items()
-    if req == "cancel":
-        cand = [i for i in items if i["cancellable"]]
-    else:
-        cand = [i for i in items if i["forcible"] and i["state"] not in ("completed", "failed", "cancelled")]
-    if not cand:
+    if target is None:
+        target = pick_target(run, req)
+    if target == "nothing-offered":
         return {"kind": req, "accepted": False, "error": "nothing-offered"}
-    return run.cancel(cand[-1]["id"]) if req == "cancel" else run.force(cand[-1]["id"])
+    return run.cancel(target) if req == "cancel" else run.force(target)
 
 
 def observe(run: Run, rec, extra=None):
@@ -112,22 +124,57 @@ def lost_request(scn, req, out_json) -> str | None:
     return None
 
 
+def _reqs(req):
+    return (req,) if isinstance(req, str) else tuple(req)
+
+
+def _rec_of(recs, reqs):
+    """what the oracle sees of the request results: the single record, or the list in request order"""
+    if len(reqs) == 1:
+        return recs.get(0)
+    return recs
+
+
 def serial_outcomes(scn, req, window):
+    """Outcomes of all serial schedules: every request applied entirely before one of the window's ticks or after them, two
+    requests at the same position in both orders.  With two requests, a cancel / force may name the run-log item the user saw
+    at the start of any earlier position (the request was issued then and applied later)."""
+    import itertools
+    reqs = _reqs(req)
     outs = {}
-    for j in range(window + 1):
-        run = prepare(scn)
-        rec = None
-        for t in range(window):
-            if t == j:
-                rec = do_request(run, scn, req)
-            run.tick()
-        if j == window:
-            rec = do_request(run, scn, req)
-        for _ in range(SETTLE):
-            run.tick()
-        outs[observe(run, rec)] = j
-        run.cleanup()
+    pick_opts = []
+    for r in reqs:
+        pick_opts.append(["late"] + list(range(window + 1)) if (r in ("cancel", "force") and len(reqs) > 1) else ["late"])
+    for pos in itertools.product(range(window + 1), repeat=len(reqs)):
+        for order in itertools.permutations(range(len(reqs))):
+            for picks in itertools.product(*pick_opts):
+                if any(pk != "late" and pk > pos[i] for i, pk in enumerate(picks)):
+                    continue
+                run = prepare(scn)
+                recs, targets = {}, {}
+                for t in range(window + 1):
+                    for i in order:
+                        if picks[i] == t:
+                            targets[i] = pick_target(run, reqs[i])
+                    for i in order:
+                        if pos[i] == t:
+                            recs[i] = do_request(run, scn, reqs[i], targets.get(i))
+                    if t < window:
+                        run.tick()
+                for _ in range(SETTLE):
+                    run.tick()
+                outs.setdefault(observe_multi(run, recs, reqs), (pos, order, picks))
+                run.cleanup()
     return outs
+
+
+def observe_multi(run, recs, reqs, extra=None):
+    if len(reqs) == 1:
+        return observe(run, recs.get(0), extra)
+    ex = {"requests": [{k: (recs.get(i) or {}).get(k) for k in ("kind", "accepted", "error", "mode")} for i in range(len(reqs))]}
+    if extra:
+        ex.update(extra)
+    return observe(run, None, ex)
 
 
 def concurrent(scn, req, window, ch):
@@ -141,12 +188,16 @@ def concurrent(scn, req, window, ch):
         for _ in range(window):
             run.tick()
 
-    def requester():
-        box["rec"] = do_request(run, scn, req)
+    reqs = _reqs(req)
+
+    def requester(i):
+        def f():
+            box[i] = do_request(run, scn, reqs[i])
+        return f
     verif_hooks.set_handler(sched.point)
     deadlock = None
     try:
-        sched.run([ticker, requester])
+        sched.run([ticker] + [requester(i) for i in range(len(reqs))])
     except Deadlock as d:
         deadlock = str(d)
     finally:
@@ -158,7 +209,7 @@ def concurrent(scn, req, window, ch):
     run.engine._lock = threading.Lock()
     for _ in range(SETTLE):
         run.tick()
-    out = observe(run, box.get("rec"), {"thread_errors": [e for _, e in sched.errors]} if sched.errors else None)
+    out = observe_multi(run, box, reqs, {"thread_errors": [e for _, e in sched.errors]} if sched.errors else None)
     run.cleanup()
     return {"trace": sched.trace, "preemptions": sched.preemptions}, out
 
@@ -166,30 +217,33 @@ def concurrent(scn, req, window, ch):
 def explore_pair(item):
     scn, req, window, bound = item
     serial = serial_outcomes(scn, req, window)
+    single = isinstance(req, str)
+    item_req = req
+    req = req if single else "+".join(req)
     viol = []
     n = 0
     outcomes = collections.Counter()
 
     def body(ch):
-        return concurrent(scn, req, window, ch)
+        return concurrent(scn, item_req, window, ch)
     for choices, (info, out) in explore.choice_vectors(body, bound):
         n += 1
         if out is None:
-            viol.append((f"C40:deadlock:{req}:{scn}", f"deadlock: {info['deadlock']}", {"scenario": scn, "request": req, "window": window, "choices": choices}))
+            viol.append((f"C40:deadlock:{req}:{scn}", f"deadlock: {info['deadlock']}", {"scenario": scn, "request": item_req, "window": window, "choices": choices}))
             continue
         outcomes[out] += 1
-        lost = lost_request(scn, req, out)
+        lost = lost_request(scn, req, out) if single else None
         if lost:
             serial_too = out in serial
             viol.append((f"C40:request-lost:{lost}:by-{req}:{scn}:{'also-in-serial-order' if serial_too else 'only-when-interleaved'}",
                          f"scenario {scn}: the accepted {lost} request had no effect (interleaving {compress(info['trace'])}); outcome {out[:400]}",
-                         {"scenario": scn, "request": req, "window": window, "choices": choices}))
+                         {"scenario": scn, "request": item_req, "window": window, "choices": choices}))
             continue
         if out not in serial:
-            where = interleaving_shape(info["trace"])
+            where = interleaving_shape(info["trace"]) if single else pair_shape(info["trace"])
             viol.append((f"C40:not-serializable:{req}:{scn}:{where}",
                          f"request {req} in scenario {scn}: outcome of interleaving {compress(info['trace'])} equals no serial schedule; "
-                         f"outcome {out[:600]}", {"scenario": scn, "request": req, "window": window, "choices": choices}))
+                         f"outcome {out[:600]}", {"scenario": scn, "request": item_req, "window": window, "choices": choices}))
     seen, uniq = set(), []
     for s, w, c in viol:
         if s not in seen:
@@ -213,10 +267,29 @@ def interleaving_shape(trace):
     return "?"
 
 
+def pair_shape(trace):
+    """for two requests: which request was cut at which of its points by a step of the other request"""
+    last = {}
+    for t, p in trace:
+        if t == 0:
+            continue
+        other = 3 - t
+        if other in last and not last[other].endswith(".exit") and "release" not in last[other]:
+            return f"T{other}-cut-at-{last[other]}-by-T{t}"
+        last[t] = p
+    return "requests-not-interleaved-with-each-other"
+
+
+PAIRS = [("pause", "edit"), ("edit", "pause"), ("stop", "edit"), ("inject", "edit"), ("pause", "inject"), ("cancel", "edit"), ("force", "pause"),
+         ("stop", "pause")]
+
+
 def run(ctx):
     window = 2
     bound = 1 if ctx.quick else 2
     items = [(s, r, window, bound) for s in SCENARIOS for r in REQUESTS]
+    # two requests and the ticking thread (one tick in the window)
+    items += [(s, pr, 1, bound) for s in SCENARIOS for pr in PAIRS]
     ctx.prove_deterministic(lambda it: explore_pair((it[0], it[1], it[2], 0))[0:1], [items[1], items[8]], k=2)
     results = ctx.pmap(explore_pair, items, chunk=1)
     execs = 0
@@ -230,7 +303,7 @@ def run(ctx):
         raise HarnessError("vacuous: too few interleavings")
     ctx.coverage.update(
         states=execs, transitions=execs, traces_validated_against_impl=execs, evaluations=execs,
-        distinct_nontrivial=distinct, scenario_request_pairs=len(items), preemption_bound=bound, window_ticks=window,
+        distinct_nontrivial=distinct, scenario_request_pairs=len(items), two_request_items=len(SCENARIOS) * len(PAIRS), preemption_bound=bound, window_ticks=window,
         rule="one execution per interleaving with at most `preemption_bound` preemptions, per (prepared state, request); "
              "distinct_nontrivial = distinct final observations over all interleavings",
         samples=[{"scenario": items[1][0], "request": items[1][1]}, {"scenario": items[-1][0], "request": items[-1][1]}],
@@ -241,6 +314,8 @@ def run(ctx):
 
 def replay(data):
     scn, req, window = data["scenario"], data["request"], data["window"]
+    if not isinstance(req, str):
+        req = tuple(req)
     serial = serial_outcomes(scn, req, window)
     ch = explore.Chooser(data["choices"])
     info, out = concurrent(scn, req, window, ch)
@@ -249,8 +324,10 @@ def replay(data):
     for o, j in serial.items():
         print(f"serial (request before window tick {j}):", o[:500])
     print("concurrent outcome:", (out or info)[:700] if isinstance(out, str) else info)
+    label = req if isinstance(req, str) else "+".join(req)
     if out is None:
-        return [(f"C40:deadlock:{req}:{scn}", info["deadlock"])]
+        return [(f"C40:deadlock:{label}:{scn}", info["deadlock"])]
     if out not in serial:
-        return [(f"C40:not-serializable:{req}:{scn}:{interleaving_shape(info['trace'])}", "outcome equals no serial schedule")]
+        shape = interleaving_shape(info['trace']) if isinstance(req, str) else pair_shape(info['trace'])
+        return [(f"C40:not-serializable:{label}:{scn}:{shape}", "outcome equals no serial schedule")]
     return []
